@@ -50,12 +50,13 @@
         keys) — complete statements about those programs, which never forge a type pointer and
         never run out of fuel; they are what the correspondence check runs against the real code on
         every case;
-      - [C13_feature_subscription_eq_partial]: a subscription (subscribe once, every event executes
-        the selection set) — *partial*: proved for the transcribed program [ssub_prog] only; the
-        per-event execution of arbitrary documents is covered by [C13_feature_exec_eq] (operation
-        kind subscription), the SUBSCRIBE step (one root field, GetField under the connection's
-        features, the resolver call that yields the source stream) for documents with arguments,
-        variables or directives is in no complete model (C01's model has no source streams);
+      - [C13_feature_pipeline_eq], [C13_feature_subscription_eq]: graphql.Execute and
+        graphql.Subscribe from the BYTES of the request, on the composed pipeline of C03 (parser,
+        ParseAndValidate with the checked-pairs memo, variable and argument coercion, executor; for
+        Subscribe the subscribe step: one root field, GetField, argument coercion, the resolver call
+        yielding the source stream) — every request text, every document; each event of a
+        subscription is one [C13_feature_pipeline_eq] run; [C13_subscription_exec_eq]: the instance
+        for this property's own transcribed program;
       - [C13_reachable_fuel_suffices], [C13_erase_physical_registry],
         [C13_exclusion_means_still_reached]: what schema.New registers is the least closed set
         containing the roots (the fuel of [reachable] always suffices);
@@ -70,7 +71,7 @@ From Coq Require Import String List NArith.
 From ApiFu Require Import Base.Sexp Feat.FeaturesModel Feat.FeaturesSpec Feat.FeaturesProofs Feat.FeaturesReach
   Feat.FeaturesDocModel Feat.FeaturesDocProofs Feat.FeaturesFuelProofs.
 From ApiFu Require Vld.Ast Vld.Inspect Vld.TypeInfoModel Vld.ValidatorModel Vld.ProofsCommon Vld.Witness Feat.FeaturesVld Feat.FeaturesVldRules
-  Val.Values ExeA.ArgData ExeA.ArgModel Feat.FeaturesExe.
+  Val.Values ExeA.ArgData ExeA.ArgModel Feat.FeaturesExe Pipe.Compose Pipe.SubscribeCompose Feat.FeaturesPipe.
 Import ListNotations.
 Open Scope string_scope.
 Open Scope list_scope.
@@ -193,15 +194,10 @@ Theorem C13_selection_set_fuel_suffices : forall fx S F d n fuel,
 Proof. exact sdoc_fuel_suffices. Qed.
 
 (** a subscription served over a WebSocket connection (subscribe once, then every event of the
-    source stream executes the selection set on the subscription type) — PARTIAL.
-    Full statement: for every subscription document (arguments, variables, directives included),
-    Subscribe and every executeSubscriptionEvent answer the same on (S, F) and on the erased schema.
-    Proved: for the transcribed program [ssub_prog] (selection sets as above).  The per-event
-    execution of arbitrary documents is [C13_feature_exec_eq] with operation kind subscription.
-    Missing: the subscribe step (exactly one root field, GetField under the connection's features,
-    the resolver call yielding the source stream) for documents beyond the transcription — C01's
-    model has no source streams. *)
-Theorem C13_feature_subscription_eq_partial : forall S F G fuel events d,
+    source stream executes the selection set on the subscription type): this property's own
+    transcription as a program over the lookups — a complete statement about that program; the
+    statement for every document is [C13_feature_subscription_eq] below *)
+Theorem C13_subscription_exec_eq : forall S F G fuel events d,
   schema_ok S = true -> subset F G = true ->
   run fixed S F [] (ssub_prog fuel events d) = run fixed (erase S F) G [] (ssub_prog fuel events d).
 Proof. exact subscription_eq. Qed.
@@ -397,6 +393,34 @@ Proof.
            FeaturesExe.exe_view_run_request leaf inp adefs dt S F G Hok HFG ArgModel.fixed R opname raw fuel W).
 Qed.
 
+(** ** ... and from the bytes of the request, on the composed pipeline of C03 (coq/Pipe, read-only)
+
+    [Compose.pipeline_order pi VS F ES bs opname raw W] = graphql.Execute on the request text [bs]
+    (parser, ParseAndValidate with the checked-pairs memo on the validator's schema VS with feature
+    set F, ExecuteRequest on the executor's schema ES); [SubscribeCompose.subscribe_order] =
+    graphql.Subscribe: the same front half, then the subscribe step (GetOperation, variable
+    coercion, a subscription operation, collectFields on the subscription type, exactly one
+    response key, GetField, argument coercion, the resolver call that yields the source stream).
+    Each event of the stream is one [pipeline_order] run.  VS: the schema as C04 sees it ([vok]); S:
+    the schema presented to the executor as its F-view. *)
+Theorem C13_feature_pipeline_eq : forall leaf inp adefs dt pi (VS : Vld.Ast.schema) S F G bs opname raw W,
+  ProofsCommon.order_ok pi -> FeaturesVld.vok VS = true -> schema_ok S = true -> subset F G = true ->
+  Compose.pipeline_order pi (FeaturesVld.verase VS F) G (FeaturesExe.view leaf inp adefs dt (erase S F) G) bs opname raw W
+  = Compose.pipeline_order pi VS F (FeaturesExe.view leaf inp adefs dt S F) bs opname raw W.
+Proof.
+  exact (fun leaf inp adefs dt pi VS S F G bs opname raw W Hpi Hvok Hok HFG =>
+           FeaturesPipe.pipeline_eq leaf inp adefs dt pi Hpi VS S F G Hvok Hok HFG bs opname raw W).
+Qed.
+
+Theorem C13_feature_subscription_eq : forall leaf inp adefs dt pi (VS : Vld.Ast.schema) S F G bs opname raw W,
+  ProofsCommon.order_ok pi -> FeaturesVld.vok VS = true -> schema_ok S = true -> subset F G = true ->
+  SubscribeCompose.subscribe_order pi (FeaturesVld.verase VS F) G (FeaturesExe.view leaf inp adefs dt (erase S F) G) bs opname raw W
+  = SubscribeCompose.subscribe_order pi VS F (FeaturesExe.view leaf inp adefs dt S F) bs opname raw W.
+Proof.
+  exact (fun leaf inp adefs dt pi VS S F G bs opname raw W Hpi Hvok Hok HFG =>
+           FeaturesPipe.subscribe_eq leaf inp adefs dt pi Hpi VS S F G Hvok Hok HFG bs opname raw W).
+Qed.
+
 (** the reference exists: the reduced schema is accepted by schema.New *)
 Theorem C13_erase_schema_ok : forall S F, schema_ok S = true -> schema_ok (erase S F) = true.
 Proof. exact erase_schema_ok. Qed.
@@ -527,7 +551,7 @@ Print Assumptions C13_selection_set_validate_eq.
 Print Assumptions C13_selection_set_exec_eq.
 Print Assumptions C13_set_consumers_disciplined.
 Print Assumptions C13_selection_set_fuel_suffices.
-Print Assumptions C13_feature_subscription_eq_partial.
+Print Assumptions C13_subscription_exec_eq.
 Print Assumptions C13_subscription_consumer_disciplined.
 Print Assumptions C13_ws_features_fixed_at_init.
 Print Assumptions C13_ws_features_of_latest_init.
@@ -543,6 +567,8 @@ Print Assumptions C13_C01_view_eq.
 Print Assumptions C13_C01_run_request_eq.
 Print Assumptions C13_feature_validate_eq.
 Print Assumptions C13_feature_exec_eq.
+Print Assumptions C13_feature_pipeline_eq.
+Print Assumptions C13_feature_subscription_eq.
 Print Assumptions C13_C04_spread_rule_refuted_before_fix.
 Print Assumptions C13_C04_spread_rule_after_fix.
 Print Assumptions C13_erase_schema_ok.
